@@ -67,10 +67,19 @@ class Prop(G.InputPropBase):
             items = G.random_items(rng, rng.randrange(1, 41))
             data = b"".join(G.item_bytes(it) for it in items)
             how = ("whole", "bytes", "random")[i % 3]
-            cs.append(Case("I " + G.chunkings(rng, data, how), cfgs=[G.c05_cfg(items)], tag="random-items:" + how))
+            run = G.chunkings(rng, data, how)
+            if how != "whole" and i % 2:
+                run = G.with_ops(rng, run, 0.15 if how == "bytes" else 0.5)
+                how += "+output-ops"
+            if i % 5 == 0 and how != "whole":
+                # the same items on two connections multiplexed on one thread, cut differently (kind `J`)
+                cs.append(Case("J %s / %s" % (run, G.chunkings(rng, data, "random")), cfgs=[G.c05_cfg(items)], tag="random-items:multiplexed"))
+                continue
+            cs.append(Case("I " + run, cfgs=[G.c05_cfg(items)], tag="random-items:" + how))
         for i in range(500 if tier == "quick" else 20000):
             data = G.malformed(rng)
             cs.append(Case("I " + G.chunkings(rng, data, ("whole", "random")[i % 2]), oracle=False, tag="malformed"))
         cs += G.repetition_cases(rng, tier, G.c05_cfg)
         cs += G.numeric_sweep("C05")
+        cs += G.parameter_shape_sweep(tier, "C05")
         return cs
